@@ -33,8 +33,18 @@ def g_optz(x):
     return "None" if x is None else f"(Some {gz(x)})"
 
 
+def beff(t, b):
+    """Bounds token as the model sees it.  The data of a Bounds component inherit the units of the parent
+    construct, so equal bounds arrays under parents with different units are different components: the
+    parent's units (token variant 3 = 'km') are folded into the token."""
+    if b is None or b < 0:
+        return b
+    return b * 2 + (1 if t % 4 == 3 else 0)
+
+
 def g_item(it):
-    return f"(mkI [{'; '.join(gnat(a) for a in it.get('ax', []))}] {gz(it['t'])} {g_optz(it.get('b'))})"
+    return (f"(mkI [{'; '.join(gnat(a) for a in it.get('ax', []))}] {gz(it['t'])} "
+            f"{g_optz(beff(it['t'], it.get('b')))})")
 
 
 def g_field(sk):
@@ -54,7 +64,7 @@ def g_field(sk):
 
 
 def g_rcons(c):
-    return f"({gnat(c[0])}, {gz(c[1])}, {gz(c[2])}, [{'; '.join(gz(x) for x in c[3])}])"
+    return f"({gnat(c[0])}, {gz(c[1])}, {gz(beff(c[1], c[2]))}, [{'; '.join(gz(x) for x in c[3])}])"
 
 
 def g_datum(d):
@@ -445,14 +455,15 @@ def descriptors(sk, fview):
             continue
         add(fview["dim"][di][0], "dim", it, [sk["sizes"][i]])
         if fview["dim"][di][1] is not None:
-            out.setdefault(fview["dim"][di][1], []).append(("bnd", it["b"], None, (sk["sizes"][i], 2)))
+            out.setdefault(fview["dim"][di][1], []).append(("bnd", beff(it["t"], it["b"]), None, (sk["sizes"][i], 2)))
         di += 1
     for kind in ("scalar", "aux", "anc", "meas", "fanc"):
         for j, it in enumerate(sk.get(kind, [])):
             shape = [sk["sizes"][a] for a in it.get("ax", [])]
             add(fview[kind][j][0], kind, it, shape)
             if fview[kind][j][1] is not None:
-                out.setdefault(fview[kind][j][1], []).append(("bnd", it.get("b"), None, tuple(shape) + (2,)))
+                out.setdefault(fview[kind][j][1], []).append(("bnd", beff(it["t"], it.get("b")), None,
+                                                             tuple(shape) + (2,)))
     return out
 
 
@@ -501,7 +512,7 @@ def nontrivial(case):
 def run(chk, model_ok):
     rng = chk.rng
     thorough = chk.tier == "thorough"
-    ncases = 4200 if thorough else 520
+    ncases = 3600 if thorough else 170
     cases = corpus()
     fid = 100
     for n in range(ncases):
